@@ -2,21 +2,38 @@
 
 Built on `e2_eval.AutoEvaluator` (unknown names are symbols, temporaries are substituted, unknown calls are opaque applications); added here:
 
-  * every `np.empty / zeros / ones / eye / *_like / X.copy()` is a fresh array object `@k` with the *value* of its shape tuple (whatever
+  * the functions are evaluated *as written* (`raw_module`): the canonical form of `e1_canon` substitutes extra temporaries back into their
+    users, which duplicates displays (`out = {...}`) and dissolves views (`col = A[:, j]`) - an evaluator on values needs no such help;
+  * every `np.empty / zeros / ones / full / eye / *_like / X.copy()` is a fresh array object `@k` with the *value* of its shape tuple (whatever
     temporaries, slices of tuples or module constants hold it); names, dict entries and helper parameters that refer to it are aliases;
   * `X[...]` on an array of known rank is the canonical atom `sel(X, s0, ..., s_{n-1})` (one selector per axis: `:` or the index value), so
-    `X[:, j, :]`, `X[:, j]`, `X[..., j, :]` and `np.moveaxis(X, 1, 0)[j]` are one value; loads and stores are logged with the loops they
-    happen in; a load right after a store with the same selectors reads the stored value;
-  * loops with a symbolic trip count (`for i in range(n)`, `enumerate(X)`, iteration over an array, `i = 0; while i < n: ...; i += 1`,
-    list comprehensions) are evaluated once on a fresh index symbol whose *domain* (the trip count value) is recorded; loops and
-    comprehensions over literal tuples are unrolled;
-  * calls to functions of the same module and to closures are followed on the argument values (same trace, same loop context);
-  * an `if` the rule's oracle does not decide: an arm that only raises is the error exit (its test is logged as a guard: the equalities that
-    hold afterwards); otherwise both arms are evaluated, their events are tagged `maybe`, and names that differ become `ite(test, a, b)`;
-  * `SimpleNamespace(...)`, `dict(...)`, `{...}`, dict comprehensions with literal keys, `d.update(...)`, `f(**d)` are records by field name.
+    `X[:, j, :]`, `X[:, j]`, `X[..., j, :]`, `np.moveaxis(X, 1, 0)[j]` and `X.T[j]` (matrix) are one value; loads and stores are logged with the
+    loops they happen in; a load right after a store with the same selectors reads the stored value; a name bound to a basic-indexing view of
+    an array object (`col = A[:, j]`) stays a view: `col[:] = x` stores into A and reading `col` afterwards reads x; `.copy()` of a view is a
+    new object; functions that are followed receive views by reference;
+  * `len(X)` and `X.shape[0]` are one value, `X.shape` of a value of known rank is a tuple of extents (so `r, c = X.shape[:2]` works);
+    comparisons have one spelling per relation (`2 == n` is `n == 2`, `a > b` is `b < a`);
+  * loops with a symbolic trip count (`for i in range(n)` / `np.arange(n)` / `range(0, n, 1)`, `enumerate(X)`, `zip`, iteration over an array
+    or a view, `i = 0; while i < n / i != n / i <= n - 1: ...; i += 1`, list comprehensions) are evaluated once on a fresh index symbol
+    whose *domain* (the trip count value) is recorded; loops and comprehensions over literal tuples, strings, dicts and constant ranges are
+    unrolled (each pass creates its own objects); `continue` ends a pass;
+  * calls to functions of the same module, to closures and lambdas are followed on the argument values (same trace, same loop context),
+    also through an alias (`solve = la.solve`, `run = fs.fsolve`, `build = ode.SolveUnc`); keywords of module functions are put in
+    signature order; a helper whose returns depend on tests nobody decides returns `ite(...)` or, failing that, an opaque symbol;
+  * `if`: the rule's oracle is asked on the *value* of the test (`truth` composes not / and / or / != / conditional values / literal
+    comparisons, so flags and inverted or flattened spellings are decided like the original test); `if t: A(leaves)` followed by R is
+    `if t: A else: R`; an arm that only raises (directly or through a raising helper) is the error exit - its test is logged as a guard
+    (the equalities that hold afterwards, read from the value of the test: chains, De Morgan forms, `any(... for ...)`, `len({..}) != 1`,
+    accumulated flags); otherwise both arms are evaluated, their events are tagged `maybe`, names that differ become `ite(test, a, b)`;
+    two arms that both return give one merged return value;
+  * `try` with handlers: every arm may run in part (names it binds become opaque); `try / finally` runs as written;
+  * `SimpleNamespace(...)`, `dict(...)`, `{...}`, `dict(zip(...))`, dict comprehensions with literal keys, `d.update(...)`, `f(**d)`,
+    `ns.x = v`, `setattr / getattr` with literal names, `.items() / .get()` are records by field name.
 
-Nothing of /repo is imported or executed.  Matrix products commute in the formula domain (as everywhere in E2): `np.dot`/`@` are products,
-`la.solve(X, Y)` is Y/X, `la.inv(X)` is 1/X, `np.transpose(X)` is `X.T`.
+Nothing of /repo is imported or executed.  Matrix products commute in the formula domain (as everywhere in E2): `np.dot`/`np.matmul`/`@` are
+products, `la.solve(X, Y)` is Y/X, `la.inv(X)` is 1/X, `np.transpose(X)` / `X.transpose()` is `X.T`, `np.add / subtract / multiply / divide /
+negative / square` are the operators.  What cannot be lowered raises `Unsupported` (exit 2): `break`, `while` loops that are not counted
+loops, `for ... else`, a definite `return` inside a loop with a symbolic trip count, call depth > 6.
 """
 from __future__ import annotations
 
@@ -24,19 +41,21 @@ import ast
 
 from . import e2_formula as F
 from .core import Unsupported
-from .e1_srcmodel import dotted
+from .e1_srcmodel import Module, dotted
 from .e2_eval import AutoEvaluator, Unknown, is_unknown
 from .sem import unfn
 
 ALL = F.sym(":")
 NONE = F.sym("None")
 MAX_DEPTH = 6
+MAX_UNROLL = 16
 
-ALLOC_CTORS = {"np.empty": None, "np.zeros": 0, "np.ones": 1, "numpy.empty": None, "numpy.zeros": 0, "numpy.ones": 1}
+ALLOC_CTORS = {"np.empty": None, "np.zeros": 0, "np.ones": 1, "numpy.empty": None, "numpy.zeros": 0, "numpy.ones": 1, "np.full": None, "numpy.full": None}
 LIKE_CTORS = {"np.empty_like": None, "np.zeros_like": 0, "np.ones_like": 1}
 SOLVE = {"la.solve", "np.linalg.solve", "scipy.linalg.solve", "linalg.solve"}
 INV = {"la.inv", "np.linalg.inv", "scipy.linalg.inv", "linalg.inv"}
 DOT = {"np.dot", "np.matmul"}
+UFUNC2 = {"np.add": "+", "np.subtract": "-", "np.multiply": "*", "np.divide": "/", "np.true_divide": "/"}
 IDENT_CALLS = {"np.asarray", "np.array", "np.atleast_1d", "np.atleast_2d", "np.ascontiguousarray", "np.asfortranarray"}
 IDENT_METHODS = {"ravel", "flatten", "copy", "squeeze"}
 
@@ -45,6 +64,7 @@ class Arr:
     def __init__(self, aid, ctor, shape, fill, node, loops, seq, like=None):
         self.id, self.ctor, self.shape, self.fill, self.node, self.loops, self.seq, self.like = aid, ctor, shape, fill, node, loops, seq, like
         self.sym = F.sym(f"@{aid}")
+        self.init = None
 
     def __repr__(self):
         return f"<@{self.id} {self.ctor} {self.shape}>"
@@ -118,6 +138,106 @@ def same(a, b):
         return False
 
 
+_SYMMETRIC = ("Eq", "NotEq", "Is", "IsNot")
+_SWAP = {"Gt": "Lt", "GtE": "LtE"}
+
+
+def cmp_value(op, a, b):
+    """one spelling per relation: `2 == n` is `n == 2`, `a > b` is `b < a`"""
+    if op in _SWAP:
+        op, a, b = _SWAP[op], b, a
+    if op in _SYMMETRIC and repr(b) < repr(a):
+        a, b = b, a
+    return F.fn("cmp:" + op, a, b)
+
+
+_NOLIT = object()
+
+
+def literal(v):
+    """python value of a value that is a literal (number, string, True / False / None), else _NOLIT"""
+    if not is_rat(v):
+        return _NOLIT
+    if v.is_const():
+        return v.const_value()
+    n = one_sym(v)
+    if n in ("True", "False", "None"):
+        return {"True": True, "False": False, "None": None}[n]
+    s_ = str_const(v)
+    return _NOLIT if s_ is None else s_
+
+
+def truth(v, atom):
+    """three-valued truth of a test *value*: `atom(value) -> True / False / None` answers for the relations the rule knows, `not`, `and`, `or`,
+    `!=` / `is not` and conditional values are composed here - so a flag (`skip = not isinstance(...)`; `if skip:`) is decided like the test
+    it was computed from"""
+    if not is_rat(v):
+        return None
+    r = atom(v)
+    if r is not None:
+        return r
+    lit = literal(v)
+    if lit is not _NOLIT:
+        return bool(lit)
+    u = unfn(v)
+    if not u:
+        return None
+    name, args = u
+    if name in ("cmp:Eq", "cmp:Is") and len(args) == 2:
+        if same(args[0], args[1]):
+            return True
+        a, b = literal(args[0]), literal(args[1])
+        if a is not _NOLIT and b is not _NOLIT:
+            return a == b                       # `kind == "drm"` on a flag that holds a literal
+    if name == "not" and len(args) == 1:
+        r = truth(args[0], atom)
+        return None if r is None else not r
+    if name in ("bool:And", "bool:Or"):
+        rs = [truth(a, atom) for a in args]
+        if name == "bool:And":
+            return False if any(r is False for r in rs) else (True if all(r is True for r in rs) else None)
+        return True if any(r is True for r in rs) else (False if all(r is False for r in rs) else None)
+    if name in ("cmp:NotEq", "cmp:IsNot") and len(args) == 2:
+        r = truth(F.fn("cmp:Eq" if name == "cmp:NotEq" else "cmp:Is", *args), atom)
+        return None if r is None else not r
+    if name == "ite" and len(args) == 3:
+        c = truth(args[0], atom)
+        if c is not None:
+            return truth(args[1] if c else args[2], atom)
+        a, b = truth(args[1], atom), truth(args[2], atom)
+        return a if a == b else None
+    return None
+
+
+def equalities(v, want=True):
+    """pairs of values that are equal when the test value `v` has the truth value `want`"""
+    u = unfn(v) if is_rat(v) else None
+    if not u:
+        return []
+    name, args = u
+    if name == "not" and len(args) == 1:
+        return equalities(args[0], not want)
+    if (name == "bool:And" and want) or (name == "bool:Or" and not want):
+        return [p for a in args for p in equalities(a, want)]
+    if name == "ite" and len(args) == 3:
+        # a flag set under nested tests: `bad = True; if a == b: bad = b != c` is false only when a == b and b == c
+        c, a, b = args
+        la, lb = literal(a), literal(b)
+        if lb is not _NOLIT and bool(lb) != want:
+            return equalities(c, True) + equalities(a, want)
+        if la is not _NOLIT and bool(la) != want:
+            return equalities(c, False) + equalities(b, want)
+        return []
+    if ((name == "cmp:Eq" and want) or (name == "cmp:NotEq" and not want)) and len(args) == 2:
+        for x, y in ((args[0], args[1]), (args[1], args[0])):
+            ux = unfn(x)
+            if const_int(y) == 1 and ux and ux[0] == "call:len" and unfn(ux[1][0]) and unfn(ux[1][0])[0] == "set":
+                items = unfn(ux[1][0])[1]                 # len({a, b, c}) == 1: all the same
+                return list(zip(items, items[1:]))
+        return [(args[0], args[1])]
+    return []
+
+
 def str_const(v):
     """python string of a value that is a string literal, else None"""
     n = one_sym(v)
@@ -129,32 +249,62 @@ def str_const(v):
     return None
 
 
-def only_raises(stmts):
-    """every path through the statements ends in `raise`"""
-    if not stmts:
-        return False
-    last = stmts[-1]
-    if isinstance(last, ast.Raise):
-        return True
-    if isinstance(last, ast.If):
-        return only_raises(last.body) and only_raises(last.orelse)
-    return False
-
-
 def always_ends(stmts):
+    """every path through the statements leaves the block (return / raise / continue)"""
     if not stmts:
         return False
     last = stmts[-1]
-    if isinstance(last, (ast.Raise, ast.Return)):
+    if isinstance(last, (ast.Raise, ast.Return, ast.Continue)):
         return True
     if isinstance(last, ast.If):
         return always_ends(last.body) and always_ends(last.orelse)
     return False
 
 
+def _has_return(stmts):
+    """a `return` somewhere in the statements (not inside a nested function)"""
+    stack = list(stmts)
+    while stack:
+        n = stack.pop()
+        if isinstance(n, ast.Return):
+            return True
+        if isinstance(n, (ast.FunctionDef, ast.AsyncFunctionDef, ast.Lambda, ast.ClassDef)):
+            continue
+        stack.extend(ast.iter_child_nodes(n))
+    return False
+
+
+def raw_module(ctx, rel):
+    """the module parsed as it is written.  `ctx.src.mod(rel).tree` went through `e1_canon` (polarity of tests, extra temporaries substituted
+    back into their users); that form serves text rules, but it substitutes a *display* (`out = {...}` used four times becomes four dicts,
+    `col = A[:, j]` becomes `A[:, j][:] = ...`) and so loses the identity of an object - and an evaluator on values needs neither normalisation.
+    Same node annotations as e1_srcmodel.Module (`ctx.src.where / seg` work on these nodes)."""
+    cache = ctx.src.__dict__.setdefault("_c15_raw", {})
+    m = cache.get(rel)
+    if m is None:
+        canon = ctx.src.mod(rel)                     # AnchorError when the file is gone; digest recorded as consulted
+        m = Module.__new__(Module)
+        m.rel, m.path, m.digest, m.source, m.renamed = rel, canon.path, canon.digest, canon.source, []
+        m.tree = ast.parse(m.source, filename=m.path)
+        m.funcs, m.classes = {}, {}
+        m._index(m.tree, "", None)
+        cache[rel] = m
+    return m
+
+
+def raw_func(ctx, rel, qual):
+    ctx.src.func(rel, qual)                          # anchor check + registration of the consulted function
+    return raw_module(ctx, rel).funcs[qual]
+
+
+def raw_funcs(ctx, rel, exclude=()):
+    """{name: FunctionDef} of the module-level functions of `rel`, as written"""
+    return {q: f for q, f in raw_module(ctx, rel).funcs.items() if "." not in q and "#" not in q and q not in exclude}
+
+
 def module_consts(ctx, rel):
     out = {}
-    for st in ctx.src.mod(rel).tree.body:
+    for st in raw_module(ctx, rel).tree.body:
         if isinstance(st, ast.Assign) and len(st.targets) == 1 and isinstance(st.targets[0], ast.Name):
             out[st.targets[0].id] = st.value
         elif isinstance(st, ast.AnnAssign) and isinstance(st.target, ast.Name) and st.value is not None:
@@ -169,6 +319,7 @@ class Interp(AutoEvaluator):
         self.consts = module_consts(ctx, rel)
         self._const_cache = {}
         self.userfuncs = dict(funcs or {})
+        self.sigs = {q: [x.arg for x in f.args.posonlyargs + f.args.args] for q, f in raw_funcs(ctx, rel).items()}
         self.ndim_hook = ndim
         self.arrs = {}
         self.loops = {}
@@ -183,6 +334,12 @@ class Interp(AutoEvaluator):
         self.frame = object()       # identity of the function activation under evaluation (closures are late-bound to it)
         self.root_env = {}
         self.raised = False
+        self.as_base = 0
+        self.exit = None            # how the block under evaluation was left (with self.done)
+        self.loop_depth = 0
+        self.maybe_base = 0
+        self.cont_raises = False    # the statements that follow the block under evaluation only raise
+        self._raise_stack = []
         self.tag_conversions = False    # True: np.asarray / np.atleast_nd(x) is the value arr(x), not x
 
     # ------------------------------------------------------------------ entry points
@@ -273,9 +430,17 @@ class Interp(AutoEvaluator):
         def overlay(seq_):
             live = []
             for s in seq_:
+                if all(same(x, ALL) for x in s["sel"]):
+                    live = []                       # the whole array is overwritten
                 live = [(sl, v) for sl, v in live if not same(tuple(sl), tuple(s["sel"]))]
                 live.append((s["sel"], s["value"]))
             return [(sl, v) for sl, v in live if not same(v, fill)]
+
+        now = [s for s in sts if s["seq"] < seq and all(l in loops for l in s["loops"])]
+        wipes = [i for i, s in enumerate(now) if all(same(x, ALL) for x in s["sel"]) and s["loops"] == tuple(loops)]
+        if wipes:
+            # reset in the pass that reads: leftovers of earlier passes do not matter
+            return overlay(now[wipes[-1]:])
 
         # loops that were entered after the array was created and enclose the read: what a full pass leaves behind must be nothing
         outer = [l for l in loops if l not in arr.loops]
@@ -302,6 +467,8 @@ class Interp(AutoEvaluator):
         u = unfn(v)
         if u and u[0] == "perm":
             return len(u[1]) - 1
+        if u and u[0] == "attr:T":
+            return self.ndim_of(u[1][0])
         if u and u[0] == "sel":
             rest = [s for s in u[1][1:] if same(s, ALL) or (unfn(s) and unfn(s)[0] == "slice")]
             return len(rest)
@@ -309,24 +476,52 @@ class Interp(AutoEvaluator):
             return self.ndim_hook(v, self)
         return None
 
+    def as_perm(self, v):
+        """(underlying value, axis permutation) of a transposed / moved-axes view; `.T` of a matrix is the permutation (1, 0)"""
+        u = unfn(v) if is_rat(v) else None
+        if u and u[0] == "perm":
+            return u[1][0], [const_int(p) for p in u[1][1:]]
+        if u and u[0] == "attr:T" and self.ndim_of(u[1][0]) == 2:
+            return u[1][0], [1, 0]
+        return None
+
+    def dim(self, v, i):
+        """extent of axis i of a value: one spelling for `len(X)` and `X.shape[0]`"""
+        sh = self.shape_of(v)
+        if sh is not None:
+            return sh[i]
+        return F.fn("call:len", v) if i == 0 else F.fn("idx", F.fn("attr:shape", v), F.const(i))
+
     def shape_of(self, v):
         a = self.arr_of(v)
         if a is not None and a.shape is not None:
             return a.shape
-        u = unfn(v) if is_rat(v) else None
-        if u and u[0] == "perm":
-            inner = self.shape_of(u[1][0])
-            if inner is not None:
-                return tuple(inner[const_int(p)] for p in u[1][1:])
-            return tuple(F.fn("idx", F.fn("attr:shape", u[1][0]), p) for p in u[1][1:])
+        pm = self.as_perm(v)
+        if pm is not None:
+            return tuple(self.dim(pm[0], p) for p in pm[1])
         return None
+
+    def shape_value(self, v):
+        """value of `v.shape`: a tuple of extents when the rank is known, else the opaque attribute"""
+        sh = self.shape_of(v)
+        if sh is not None:
+            return tuple(sh)
+        nd = self.ndim_of(v)
+        if nd is not None:
+            return tuple(self.dim(v, i) for i in range(nd))
+        return F.fn("attr:shape", v)
 
     def length(self, v):
         if isinstance(v, tuple):
             return F.const(len(v))
+        if isinstance(v, Rec):
+            return F.const(len(v.fields))
         n = one_sym(v)
         if n and n.startswith("comp#"):
             return self.comps[int(n[5:])][1]
+        s_ = str_const(v)
+        if s_ is not None:
+            return F.const(len(s_))
         sh = self.shape_of(v)
         if sh is not None:
             return sh[0]
@@ -408,9 +603,9 @@ class Interp(AutoEvaluator):
                 sels.append(e)
         sels.extend([ALL] * (nd - len(sels)))
         u = unfn(base)
-        if u and u[0] == "perm":
-            inner = u[1][0]
-            perm = [const_int(p) for p in u[1][1:]]
+        pm = self.as_perm(base)
+        if pm is not None:
+            inner, perm = pm
             under = [ALL] * nd
             for i, s in enumerate(sels):
                 under[perm[i]] = s
@@ -434,7 +629,7 @@ class Interp(AutoEvaluator):
         u = unfn(s)
         return not (u and u[0] == "slice")
 
-    def _select(self, base, entries, node, store, value=None):
+    def _select(self, base, entries, node, store, value=None, view=False):
         """value of base[entries] (load) or log of the store"""
         if not is_rat(base):
             return Unknown("subscript of a non-value")
@@ -459,12 +654,7 @@ class Interp(AutoEvaluator):
         if all(same(s, ALL) for s in sels):
             v = under
         else:
-            v = None
-            if a is not None:
-                for s in reversed(self.stores_of(a.id)):
-                    if s["sel"] is not None and not s["maybe"] and same(tuple(s["sel"]), tuple(sels)):
-                        v = s["value"] if is_rat(s["value"]) else None
-                    break
+            v = self._forwarded(a, sels) if a is not None and not view else None
             if v is None:
                 v = F.fn("sel", under, *sels)
         if rest is not None and rest != sorted(rest):
@@ -480,30 +670,41 @@ class Interp(AutoEvaluator):
             return node.v
         if isinstance(node, ast.Name):
             if node.id in self.env:
-                return self.env[node.id]
+                v = self.env[node.id]
+                return v if self.as_base else self._deref(v)
             if node.id in self.consts:
                 return self._const(node.id)
             return super()._ev(node)
         if isinstance(node, ast.Attribute):
             return self._attr(node)
         if isinstance(node, ast.Subscript):
-            base = self._ev(node.value)
+            base = self._base(node.value)
             if isinstance(base, Rec):
                 k = str_const(self._ev(node.slice))
                 if k is None or k not in base.fields:
                     return Unknown(f"record field {ast.unparse(node.slice)}")
                 return base.fields[k]
             if isinstance(base, tuple):
-                i = self._ev(node.slice) if not isinstance(node.slice, (ast.Slice, ast.Tuple)) else None
+                if isinstance(node.slice, ast.Slice):
+                    bs = [None if b is None else const_int(self.ev(b)) for b in (node.slice.lower, node.slice.upper, node.slice.step)]
+                    if all(b is not None or x is None for b, x in zip(bs, (node.slice.lower, node.slice.upper, node.slice.step))):
+                        return base[slice(*bs)]
+                    return Unknown("tuple slice with computed bounds")
+                i = self._ev(node.slice) if not isinstance(node.slice, ast.Tuple) else None
                 ci = const_int(i) if i is not None else None
                 if ci is not None:
                     try:
                         return base[ci]
                     except IndexError:
                         return Unknown("tuple index out of range")
-                return super(AutoEvaluator, self)._ev(node)
+                return Unknown("tuple index that is not a constant")
             if is_unknown(base):
                 return base
+            ub = unfn(base)
+            if ub and ub[0] == "attr:shape" and not isinstance(node.slice, (ast.Slice, ast.Tuple)):
+                ci = const_int(self.ev(node.slice))
+                if ci is not None and ci >= 0:
+                    return self.dim(ub[1][0], ci)
             try:
                 return self._select(base, self._entries(node.slice), node, False)
             except Unsupported as e:
@@ -523,6 +724,11 @@ class Interp(AutoEvaluator):
             return self._ite(t, a, b)
         if isinstance(node, (ast.ListComp, ast.GeneratorExp, ast.SetComp, ast.DictComp)):
             return self._comp(node)
+        if isinstance(node, ast.Lambda):
+            return self._lambda(node)
+        if isinstance(node, ast.Set):
+            vals = [self._ev(e) for e in node.elts]
+            return F.fn("set", *vals) if all(is_rat(v) for v in vals) else Unknown("set of non-values")
         if isinstance(node, ast.Dict):
             r = Rec("dict")
             for k, v in zip(node.keys, node.values):
@@ -541,9 +747,54 @@ class Interp(AutoEvaluator):
                 if not is_rat(v):
                     return v if is_unknown(v) else Unknown("comparison of non-values")
                 vals.append(v)
-            links = [F.fn("cmp:" + type(op).__name__, vals[i], vals[i + 1]) for i, op in enumerate(node.ops)]
+            links = [cmp_value(type(op).__name__, vals[i], vals[i + 1]) for i, op in enumerate(node.ops)]
             return links[0] if len(links) == 1 else F.fn("bool:And", *links)
         return super()._ev(node)
+
+    def _base(self, node):
+        """value of the expression a subscript is applied to: a name bound to a view stays the view (`col = A[:, j]; col[:] = x` stores into A)"""
+        if isinstance(node, ast.Name):
+            self.as_base += 1
+            try:
+                return self._ev(node)
+            finally:
+                self.as_base -= 1
+        if isinstance(node, ast.Subscript):
+            inner = self._base(node.value)
+            if is_rat(inner):
+                return self._select(inner, self._entries(node.slice), node, False, view=True)       # `A[:, j][:] = x`: the cells, not their content
+        return self._ev(node)
+
+    def _is_view(self, v):
+        """`v` is a basic-indexing view of an array object: every selector is `:`, a slice, a loop index or an integer"""
+        u = unfn(v) if is_rat(v) else None
+        if not u or u[0] != "sel":
+            return None
+        a = self.arr_of(u[1][0])
+        if a is None:
+            return None
+        for s_ in u[1][1:]:
+            if self._scalar_sel(s_) and self.loop_of(s_) is None and const_int(s_) is None:
+                return None
+        return a
+
+    def _deref(self, v):
+        """a name bound to a view is read: what the last store put into exactly these cells, else the cells themselves"""
+        a = self._is_view(v)
+        if a is None:
+            c = self.arr_of(v)
+            if c is not None and c.init is not None and not self.stores_of(c.id):
+                return c.init                      # an untouched copy reads as what it was copied from
+            return v
+        w = self._forwarded(a, list(unfn(v)[1][1:]))
+        return v if w is None else w
+
+    def _forwarded(self, a, sels):
+        for s_ in reversed(self.stores_of(a.id)):
+            if s_["sel"] is not None and not s_["maybe"] and same(tuple(s_["sel"]), tuple(sels)) and is_rat(s_["value"]):
+                return s_["value"]
+            break
+        return None
 
     def _ite(self, t, a, b):
         if same(a, b):
@@ -573,28 +824,35 @@ class Interp(AutoEvaluator):
             root = d.split(".")[0]
             if root not in self.env and root not in self.consts:
                 return super()._ev(node)          # np.pi, math.pi, names of other modules: symbols
-        base = self._ev(node.value)
+        # the shape of a view is the view's, not that of what was stored into it
+        view = isinstance(node.value, ast.Name) and node.attr in ("shape", "ndim", "T", "size")
+        return self._attr_of(self._base(node.value) if view else self._ev(node.value), node.attr)
+
+    def _attr_of(self, base, attr):
         if isinstance(base, Rec):
-            return base.fields.get(node.attr, Unknown(f"field {node.attr}"))
+            return base.fields.get(attr, Unknown(f"field {attr}"))
         if not is_rat(base):
             return base if is_unknown(base) else Unknown(f"attribute of {type(base).__name__}")
-        if node.attr == "shape":
-            sh = self.shape_of(base)
-            if sh is not None:
-                return tuple(sh)
-        if node.attr == "ndim":
+        if attr == "shape":
+            return self.shape_value(base)
+        if attr == "ndim":
             nd = self.ndim_of(base) if self.arr_of(base) is not None else None
             if nd is not None:
                 return F.const(nd)
-        return F.fn("attr:" + node.attr, base)
+        return F.fn("attr:" + attr, base)
 
     # ------------------------------------------------------------------ comprehensions and iteration
     def _iter_spec(self, it):
         """('unroll', [values]) or ('sym', domain, element function of the index value)"""
-        if isinstance(it, ast.Call) and isinstance(it.func, ast.Name) and it.func.id not in self.env:
-            nm = it.func.id
-            if nm == "range" and not it.keywords and 1 <= len(it.args) <= 2:
+        if isinstance(it, ast.Call) and (dotted(it.func) in ("np.arange", "numpy.arange") or (isinstance(it.func, ast.Name) and it.func.id not in self.env)):
+            nm = "range" if dotted(it.func) in ("np.arange", "numpy.arange") else it.func.id
+            if nm == "range" and not it.keywords and 1 <= len(it.args) <= 3:
                 vals = [self._ev(a) for a in it.args]
+                if len(vals) == 3 and const_int(vals[2]) == 1:
+                    vals = vals[:2]
+                cs = [const_int(v) if is_rat(v) else None for v in vals]
+                if all(c is not None for c in cs) and len(range(*cs)) <= MAX_UNROLL:
+                    return ("unroll", [F.const(k) for k in range(*cs)])      # a literal trip count: every pass is evaluated (fresh objects per pass)
                 if len(vals) == 2:
                     if const_int(vals[0]) != 0:
                         raise Unsupported("range with a start")
@@ -617,8 +875,9 @@ class Interp(AutoEvaluator):
                     return ("sym", dom, lambda i, fs=[s[2] for s in sps]: tuple(f(i) for f in fs))
                 raise Unsupported("zip of sequences of different kinds")
         v = self._ev(it)
-        if isinstance(v, tuple):
-            return ("unroll", list(v))
+        seq = self._as_seq(v)
+        if seq is not None:
+            return ("unroll", seq)
         if not is_rat(v):
             raise Unsupported(f"iteration over {ast.unparse(it)[:40]}")
         dom = self.length(v)
@@ -680,24 +939,49 @@ class Interp(AutoEvaluator):
         name = dotted(node.func)
         # user functions: closures and functions of the same module
         target = None
+        alias_recv = None
         if isinstance(node.func, ast.Name):
             v = self.env.get(node.func.id)
+            if v is None and node.func.id not in self.env and node.func.id not in self.userfuncs and node.func.id in self.consts:
+                v = self._const(node.func.id)           # a module-level alias: `_solve = la.solve`
             if isinstance(v, Closure):
                 target = v
             elif node.func.id not in self.env and node.func.id in self.userfuncs:
                 target = Closure(self.userfuncs[node.func.id], None)
+            elif is_rat(v):
+                # a name bound to a callable: `solve = la.solve`, `build = ode.SolveUnc`, `run = fs.fsolve` - the call is the call of its value
+                n_ = one_sym(v)
+                u_ = unfn(v)
+                if n_ and not n_.startswith(("@", "%", "?", "'", '"')):
+                    name = n_
+                    if n_ in self.userfuncs:
+                        target = Closure(self.userfuncs[n_], None)
+                elif u_ and u_[0].startswith("attr:") and len(u_[1]) == 1:
+                    name, alias_recv = "." + u_[0][5:], u_[1][0]
+        elif isinstance(node.func, ast.Lambda):
+            target = self._lambda(node.func)
+        def arg(x):
+            # a function of this module / a closure receives references: a view stays a view (it is read when the callee reads it)
+            if target is None:
+                return self.ev(x)
+            try:
+                return self._base(x)
+            except Unsupported as e:
+                return Unknown(str(e))
+
         pos, kws = [], {}
         for a in node.args:
             if isinstance(a, ast.Starred):
                 v = self.ev(a.value)
-                if isinstance(v, tuple):
-                    pos.extend(v)
+                seq = self._as_seq(v)
+                if seq is not None:
+                    pos.extend(seq)
                 else:
                     pos.append(Unknown("*args"))
             else:
-                pos.append(self.ev(a))
+                pos.append(arg(a))
         for k in node.keywords:
-            v = self.ev(k.value)
+            v = arg(k.value)
             if k.arg is None:
                 if isinstance(v, Rec):
                     kws.update(v.fields)
@@ -707,14 +991,21 @@ class Interp(AutoEvaluator):
                 kws[k.arg] = v
         if target is not None:
             return self._invoke(target, pos, kws, node)
-        recv = None
+        recv = alias_recv
         if isinstance(node.func, ast.Attribute):
             root = name.split(".")[0] if name else None
             if name is None or root in self.env or root in self.consts:
                 recv = self.ev(node.func.value)
                 name = "." + node.func.attr
+                if isinstance(recv, Closure):
+                    return Unknown("attribute of a function")
         elif name is None:
             return Unknown("call of a computed callable")
+        if name in self.sigs and kws and "**" not in kws:
+            # keywords of a function of this module are put in the order of its signature: f(x, freq=w) is f(x, w)
+            params = self.sigs[name]
+            while len(pos) < len(params) and params[len(pos)] in kws:
+                pos.append(kws.pop(params[len(pos)]))
         r = self._model(name, recv, pos, kws, node)
         if r is not NotImplemented:
             return r
@@ -747,15 +1038,106 @@ class Interp(AutoEvaluator):
             e["value"] = val
         return val
 
+    def _lambda(self, node):
+        fn = ast.FunctionDef(name="<lambda>", args=node.args, body=[ast.copy_location(ast.Return(value=node.body), node)], decorator_list=[], returns=None,
+                             type_comment=None)
+        ast.copy_location(fn, node)
+        return Closure(fn, self.env, self.frame)
+
     def _model(self, name, recv, pos, kws, node):
+        if name in SOLVE and kws and set(kws) <= {"a", "b"} and len(pos) + len(kws) == 2:
+            pos, kws = list(pos) + [kws[k] for k in ("a", "b")[len(pos):]], {}
+        if name in INV and kws and set(kws) == {"a"} and not pos:
+            pos, kws = [kws["a"]], {}
+        if name in UFUNC2 and len(pos) == 2 and not kws and all(is_rat(p_) for p_ in pos):
+            a_, b_ = pos
+            op = UFUNC2[name]
+            if op == "/" and b_.is_zero():
+                return Unknown("division by zero")
+            return a_ + b_ if op == "+" else a_ - b_ if op == "-" else a_ * b_ if op == "*" else a_ / b_
+        if name in ("np.negative", "numpy.negative") and len(pos) == 1 and not kws and is_rat(pos[0]):
+            return -pos[0]
+        if name in ("np.square", "numpy.square") and len(pos) == 1 and not kws and is_rat(pos[0]):
+            return pos[0] * pos[0]
+        if name in ("np.ndim", "np.shape", "np.size") and len(pos) == 1 and not kws:
+            return self._attr_of(pos[0], name[3:])
+        if recv is not None and is_rat(recv) and name == ".transpose" and not kws:
+            if not pos:
+                return F.fn("attr:T", recv)
+            ax = pos[0] if len(pos) == 1 and isinstance(pos[0], tuple) else tuple(pos)
+            p_ = self._perm("np.transpose", [recv, ax], {})
+            if p_ is not None:
+                return p_
+        if recv is not None and is_rat(recv) and name == ".swapaxes" and len(pos) == 2 and not kws:
+            p_ = self._perm("np.swapaxes", [recv] + list(pos), {})
+            if p_ is not None:
+                return p_
+        if recv is not None and name == ".fill" and len(pos) == 1 and not kws and self.arr_of(recv) is not None and self.arr_of(recv).shape is not None:
+            a_ = self.arr_of(recv)
+            self._log("store", arr=a_.id, base=recv, sel=[ALL] * len(a_.shape), ix=None, value=pos[0], node=node)
+            return NONE
+
         if name in ALLOC_CTORS or name in ("np.eye", "np.identity") or name in LIKE_CTORS:
             return self._alloc(name, pos, kws, node)
         if recv is not None and name == ".copy" and not pos and self.arr_of(recv) is not None:
             src = self.arr_of(recv)
             clean = not self.stores_of(src.id)
             return self._new_arr("copy", src.shape, src.fill if clean else None, node, like=src.like if src.shape is None else None).sym
+        copied = recv if recv is not None and name in (".copy", ".flatten") and not pos else (pos[0] if name in ("np.array", "np.copy") and len(pos) == 1 else None)
+        if copied is not None and self._is_view(copied) is not None:
+            # a copy of some cells of an array object: a new object (stores into it do not reach the original) that reads as what was copied
+            a_ = self._new_arr("copy", None, None, node, like=copied)
+            a_.init = self._deref(copied)
+            return a_.sym
         if name == "len" and len(pos) == 1 and not kws:
             return self.length(pos[0])
+        if name == "getattr" and len(pos) == 2 and not kws and str_const(pos[1]) is not None:
+            return self._attr_of(pos[0], str_const(pos[1]))
+        if name == "setattr" and len(pos) == 3 and not kws and str_const(pos[1]) is not None and isinstance(pos[0], Rec):
+            pos[0].fields[str_const(pos[1])] = pos[2]
+            return NONE
+        if name == "zip" and pos and not kws:
+            seqs = [self._as_seq(p_) for p_ in pos]
+            if all(q is not None for q in seqs):
+                return tuple(tuple(x) for x in zip(*seqs))
+        if name == "enumerate" and len(pos) == 1 and not kws and self._as_seq(pos[0]) is not None:
+            return tuple((F.const(i), x) for i, x in enumerate(self._as_seq(pos[0])))
+        if name in ("tuple", "list") and len(pos) == 1 and not kws and self._as_seq(pos[0]) is not None:
+            return tuple(self._as_seq(pos[0]))
+        if name in ("tuple", "list") and not pos and not kws:
+            return ()
+        if name in ("any", "all") and len(pos) == 1 and not kws and isinstance(pos[0], tuple) and all(is_rat(x) for x in pos[0]):
+            if not pos[0]:
+                return F.sym("False" if name == "any" else "True")
+            return pos[0][0] if len(pos[0]) == 1 else F.fn("bool:Or" if name == "any" else "bool:And", *pos[0])
+        if name == "dict" and len(pos) == 1 and (isinstance(pos[0], Rec) or self._as_seq(pos[0]) is not None):
+            r = Rec("dict", pos[0].fields if isinstance(pos[0], Rec) else {})
+            for item in (() if isinstance(pos[0], Rec) else self._as_seq(pos[0])):
+                k = str_const(item[0]) if isinstance(item, tuple) and len(item) == 2 else None
+                if k is None:
+                    return Unknown("dict from pairs with computed keys")
+                r.fields[k] = item[1]
+            r.fields.update(kws)
+            return r
+        if recv is not None and isinstance(recv, Rec) and recv.kind == "dict":
+            if name == ".items" and not pos:
+                return tuple((F.sym(repr(k)), v) for k, v in recv.fields.items())
+            if name == ".keys" and not pos:
+                return tuple(F.sym(repr(k)) for k in recv.fields)
+            if name == ".values" and not pos:
+                return tuple(recv.fields.values())
+            if name in (".get", ".pop", ".setdefault") and pos and str_const(pos[0]) is not None:
+                k = str_const(pos[0])
+                if k in recv.fields:
+                    return recv.fields.pop(k) if name == ".pop" else recv.fields[k]
+                if name == ".setdefault" and len(pos) == 2:
+                    recv.fields[k] = pos[1]
+                    return pos[1]
+                return pos[1] if len(pos) > 1 else NONE
+            if name == ".copy" and not pos:
+                return Rec("dict", recv.fields)
+        if name == "vars" and len(pos) == 1 and isinstance(pos[0], Rec):
+            return pos[0]
         if recv is not None and name == ".update" and isinstance(recv, Rec):
             for p in pos:
                 if isinstance(p, Rec):
@@ -796,6 +1178,17 @@ class Interp(AutoEvaluator):
         if name in self.funcs and len(pos) == 1 and is_rat(pos[0]) and not kws:
             return self.funcs[name](pos[0])
         return NotImplemented
+
+    def _as_seq(self, v):
+        """the items of a value that is a sequence of known length: a tuple, a string literal, the fields of a dict"""
+        if isinstance(v, tuple):
+            return list(v)
+        if isinstance(v, Rec) and v.kind == "dict":
+            return [F.sym(repr(k)) for k in v.fields]
+        s_ = str_const(v) if is_rat(v) else None
+        if s_ is not None:
+            return [F.sym(repr(c)) for c in s_]
+        return None
 
     def _perm(self, name, pos, kws):
         nd = self.ndim_of(pos[0])
@@ -856,6 +1249,10 @@ class Interp(AutoEvaluator):
                 return Unknown("eye size")
             return self._new_arr("np.eye", (n, m), None, node).sym
         sh = pos[0] if pos else kws.get("shape")
+        fill = ALLOC_CTORS[name]
+        if name in ("np.full", "numpy.full"):
+            fv = pos[1] if len(pos) > 1 else kws.get("fill_value")
+            fill = const_int(fv) if is_rat(fv) else None
         like = None
         if isinstance(sh, tuple):
             if not all(is_rat(x) for x in sh):
@@ -869,7 +1266,7 @@ class Interp(AutoEvaluator):
                 shape = (sh,)
         else:
             return Unknown("shape")
-        return self._new_arr(name, shape, ALLOC_CTORS[name], node, like=like).sym
+        return self._new_arr(name, shape, fill, node, like=like).sym
 
     def _invoke(self, target, pos, kws, node):
         fn = target.node
@@ -906,15 +1303,20 @@ class Interp(AutoEvaluator):
         self.env, self.returns, self.done, self.maybe_returns, self.raised = env, [], False, [], False
         self.depth += 1
         frame, self.frame = self.frame, object()
+        outer = (self.exit, self.loop_depth, self.maybe_base, self.cont_raises)
+        self.exit, self.loop_depth, self.maybe_base, self.cont_raises = None, 0, self.maybe, False       # the callee's own returns are definite for the callee
         try:
             self.run(fn.body)
             rets, mrets = self.returns, self.maybe_returns
         finally:
             self.depth -= 1
             self.frame = frame
+            self.exit, self.loop_depth, self.maybe_base, self.cont_raises = outer
             self.env, self.returns, self.done, self.maybe_returns, self.raised = saved
         if mrets:
-            return Unknown(f"conditional return in {fn.name}")
+            # returns under tests nobody decides (and that could not be merged into one value): some object the rule knows nothing about
+            self.seq += 1
+            return F.sym(f"?{self.seq}:{fn.name}()")
         if not rets:
             return NONE
         v = rets[-1][0]
@@ -933,12 +1335,17 @@ class Interp(AutoEvaluator):
             return
         if isinstance(st, ast.Return):
             v = self.ev(st.value) if st.value is not None else None
-            (self.maybe_returns if self.maybe else self.returns).append((v, st))
-            self.done = True
+            (self.maybe_returns if self.maybe > self.maybe_base else self.returns).append((v, st))
+            self.done, self.exit = True, "return"
             return
         if isinstance(st, ast.Raise):
-            self.done = True
+            self.done, self.exit = True, "raise"
             self.raised = True
+            return
+        if isinstance(st, ast.Continue):
+            if not self.loop_depth:
+                raise Unsupported("continue outside a loop")
+            self.done, self.exit = True, "continue"
             return
         if isinstance(st, ast.If):
             return self._if(st)
@@ -950,8 +1357,8 @@ class Interp(AutoEvaluator):
             return self._with(st)
         if isinstance(st, ast.Try):
             return self._try(st)
-        if isinstance(st, (ast.Break, ast.Continue)):
-            raise Unsupported("break / continue")
+        if isinstance(st, ast.Break):
+            raise Unsupported("break")
         if isinstance(st, ast.AugAssign) and isinstance(st.target, ast.Subscript):
             cur = self.ev(_load(st.target))
             v = self.ev(st.value)
@@ -974,15 +1381,29 @@ class Interp(AutoEvaluator):
             if isinstance(v, tuple) and len(v) == n:
                 for t, x in zip(target.elts, v):
                     self._assign(t, x, st)
-            elif is_rat(v) and not any(isinstance(t, ast.Starred) for t in target.elts):
+            elif is_rat(v) and not any(isinstance(t, ast.Starred) for t in target.elts[:-1]):
                 for i, t in enumerate(target.elts):
-                    self._assign(t, F.fn("idx", v, F.const(i)), st)
+                    if isinstance(t, ast.Starred):          # m, b, k, *rest = S
+                        self._assign(t.value, Unknown("starred rest of an unpacked value"), st)
+                    else:
+                        self._assign(t, self._item(v, i), st)
+            elif isinstance(v, tuple) and sum(isinstance(t, ast.Starred) for t in target.elts) == 1 and len(v) >= n - 1:
+                k = next(i for i, t in enumerate(target.elts) if isinstance(t, ast.Starred))
+                tail = n - 1 - k
+                for t, x in zip(target.elts[:k], v[:k]):
+                    self._assign(t, x, st)
+                self._assign(target.elts[k].value, tuple(v[k:len(v) - tail]), st)
+                for t, x in zip(target.elts[k + 1:], v[len(v) - tail:]):
+                    self._assign(t, x, st)
             else:
                 for t in target.elts:
                     self._assign(t, Unknown("tuple unpacking of a non-tuple"), st)
             return
         if isinstance(target, ast.Subscript):
-            base = self.ev(target.value)
+            try:
+                base = self._base(target.value)
+            except Unsupported as e:
+                base = Unknown(str(e))
             if isinstance(base, Rec):
                 k = str_const(self.ev(target.slice))
                 if k is not None:
@@ -996,63 +1417,174 @@ class Interp(AutoEvaluator):
                     self._log("store", arr=a.id if a else None, base=base, sel=None, ix=Unknown(str(e)), value=v, node=st)
             return
         if isinstance(target, ast.Attribute):
+            base = self.ev(target.value)
+            if isinstance(base, Rec):
+                base.fields[target.attr] = v        # ns.F = ...
+                return
             d = dotted(target)
             if d:
                 self.env[d] = v
             return
 
+    def only_raises(self, stmts):
+        """every path through the statements ends in `raise` (directly, or by calling a helper / closure whose body only raises)"""
+        if not stmts:
+            return False
+        last = stmts[-1]
+        if isinstance(last, ast.Raise):
+            return True
+        if isinstance(last, ast.If):
+            return self.only_raises(last.body) and self.only_raises(last.orelse)
+        if isinstance(last, ast.Expr) and isinstance(last.value, ast.Call) and isinstance(last.value.func, ast.Name):
+            v = self.env.get(last.value.func.id)
+            fn = v.node if isinstance(v, Closure) else (self.userfuncs.get(last.value.func.id) if last.value.func.id not in self.env else None)
+            if fn is not None and fn not in self._raise_stack:
+                self._raise_stack.append(fn)
+                try:
+                    return self.only_raises(fn.body)
+                finally:
+                    self._raise_stack.pop()
+        return False
+
+    def run(self, stmts):
+        outer = self.cont_raises
+        try:
+            for i, st in enumerate(stmts):
+                if self.done:
+                    break
+                rest = list(stmts[i + 1:])
+                if isinstance(st, ast.If):
+                    # what follows the `if` inside this block, else whatever follows the block: does it only raise?
+                    self.cont_raises = self.only_raises(rest) if rest else outer
+                    if rest:
+                        # `if t: A (leaves)` followed by R  is  `if t: A else: R` - else-after-return removed or added, guard clauses
+                        e1, e2 = always_ends(st.body) or self.only_raises(st.body), always_ends(st.orelse) or self.only_raises(st.orelse)
+                        if e1 != e2:
+                            self.cont_raises = outer
+                            self._if(st, st.body if e1 else st.body + rest, st.orelse + rest if e1 else st.orelse)
+                            return
+                    if self._if(st, rest=rest):
+                        return
+                    continue
+                self.cont_raises = False
+                self.stmt(st)
+        finally:
+            self.cont_raises = outer
+
+    def _item(self, v, i):
+        """item i of a value that is unpacked: `m, b, k = S[:3]` reads S[0], S[1], S[2]"""
+        u = unfn(v)
+        if u and u[0] == "idx":
+            w = unfn(u[1][1])
+            if w and w[0] == "slice":
+                lo, step = w[1][0], w[1][2]
+                lo = 0 if same(lo, NONE) else const_int(lo)
+                if lo is not None and lo >= 0 and (same(step, NONE) or const_int(step) == 1):
+                    return F.fn("idx", u[1][0], F.const(lo + i))
+        n = one_sym(v)
+        if n and n.startswith("comp#"):
+            return self.element(v, F.const(i), None)
+        return F.fn("idx", v, F.const(i))
+
+    def _merge_val(self, t, a, b):
+        if a is b or same(a, b):
+            return a
+        if isinstance(a, Rec) and isinstance(b, Rec) and a.kind == b.kind and set(a.fields) == set(b.fields):
+            return Rec(a.kind, {k: self._merge_val(t, a.fields[k], b.fields[k]) for k in a.fields})
+        if isinstance(a, tuple) and isinstance(b, tuple) and len(a) == len(b):
+            return tuple(self._merge_val(t, x, y) for x, y in zip(a, b))
+        if a is None or b is None:
+            return Unknown("bound on one arm of an undecided test only")
+        return self._ite(t, a, b)
+
     def _merge(self, t, env0, env1, env2):
         out = dict(env0)
         for k in set(env1) | set(env2):
             a, b = env1.get(k, env0.get(k)), env2.get(k, env0.get(k))
-            if a is b or same(a, b):
-                out[k] = a
-            elif a is None or b is None:
+            out[k] = self._merge_val(t, a, b)
+            if is_unknown(out[k]) and (a is None or b is None):
                 out[k] = Unknown(f"{k} bound on one arm of an undecided test only")
-            else:
-                out[k] = self._ite(t, a, b)
         return out
 
     def _arm(self, stmts, env0, maybe):
-        """run statements from env0; returns (env, ended)"""
+        """run statements from env0; returns (env, how the arm left the block: None / 'return' / 'raise' / 'continue' / 'mixed')"""
         self.env = dict(env0)
         self.done = False
+        self.exit = None
         self.maybe += 1 if maybe else 0
         try:
             self.run(stmts)
         finally:
             self.maybe -= 1 if maybe else 0
-        env, ended = self.env, self.done
+        env, ended = self.env, (self.exit or "mixed") if self.done else None
         self.done = False
+        self.exit = None
         return env, ended
 
-    def _if(self, st):
+    def _if(self, st, body=None, orelse=None, rest=None):
+        """-> True when the statements `rest` that follow the `if` in its block were evaluated as part of its arms"""
+        body = st.body if body is None else body
+        orelse = st.orelse if orelse is None else orelse
         c = self.decide(st.test)
         if c is True:
-            return self.run(st.body)
+            self.run(body)
+            return False
         if c is False:
-            return self.run(st.orelse)
-        if only_raises(st.body) or only_raises(st.orelse):
-            dead_body = only_raises(st.body)
-            self.guards.append((self._equalities(st.test, not dead_body), st))
-            return self.run(st.orelse if dead_body else st.body)
+            self.run(orelse)
+            return False
+        if self.only_raises(body) or self.only_raises(orelse):
+            # the error exit: what follows runs with the test known to have failed / held
+            dead_body = self.only_raises(body)
+            self.guards.append((equalities(self.ev(st.test), not dead_body), st))
+            self.run(orelse if dead_body else body)
+            return False
+        if self.cont_raises:
+            # everything after the `if` raises: an arm that does nothing falls into the error exit, so the other arm is the one that is alive
+            idle1, idle2 = all(isinstance(x, ast.Pass) for x in body), all(isinstance(x, ast.Pass) for x in orelse)
+            if idle1 != idle2:
+                self.guards.append((equalities(self.ev(st.test), idle2), st))
+                self.run(body if idle2 else orelse)
+                return False
+        consumed = False
+        if rest and not always_ends(body) and not always_ends(orelse) and (_has_return(body) or _has_return(orelse)):
+            # an arm returns on some of its paths: `if t: A; R` is `if t: A; R else: R` - every path then ends in a return and the returns merge
+            body, orelse, consumed = body + rest, orelse + rest, True
+            saved_cont, self.cont_raises = self.cont_raises, False
+            try:
+                self._if_undecided(st, body, orelse)
+            finally:
+                self.cont_raises = saved_cont
+            return True
+        self._if_undecided(st, body, orelse)
+        return consumed
+
+    def _if_undecided(self, st, body, orelse):
         t = self.ev(st.test)
         env0 = self.env
-        end1, end2 = always_ends(st.body), always_ends(st.orelse)
+        end1, end2 = always_ends(body), always_ends(orelse)
         if end1 and end2:
-            self._arm(st.body, env0, True)
-            self._arm(st.orelse, env0, True)
+            n0 = len(self.maybe_returns)
+            _, k1 = self._arm(body, env0, True)
+            n1 = len(self.maybe_returns)
+            _, k2 = self._arm(orelse, env0, True)
+            r1, r2 = self.maybe_returns[n0:n1], self.maybe_returns[n1:]
             self.env, self.done = env0, True
+            self.exit = k1 if k1 == k2 else "mixed"
+            if k1 == k2 == "return" and len(r1) == 1 and len(r2) == 1:
+                # both arms return: one returned value that depends on the test
+                del self.maybe_returns[n0:]
+                (self.maybe_returns if self.maybe > self.maybe_base else self.returns).append((self._merge_val(t, r1[0][0], r2[0][0]), st))
             return
         if end1 or end2:
-            self._arm(st.body if end1 else st.orelse, env0, True)
+            self._arm(body if end1 else orelse, env0, True)
             self.env = env0
             self.done = False
-            return self.run(st.orelse if end1 else st.body)
-        env1, e1 = self._arm(st.body, env0, True)
-        env2, e2 = self._arm(st.orelse, env0, True)
+            return self.run(orelse if end1 else body)
+        env1, e1 = self._arm(body, env0, True)
+        env2, e2 = self._arm(orelse, env0, True)
         if e1 and e2:
             self.env, self.done = env0, True
+            self.exit = e1 if e1 == e2 else "mixed"
         elif e1:
             self.env = env2
         elif e2:
@@ -1060,23 +1592,17 @@ class Interp(AutoEvaluator):
         else:
             self.env = self._merge(t, env0, env1, env2)
 
-    def _equalities(self, test, truth):
-        """pairs of values known to be equal when `test` has the given truth value"""
-        if isinstance(test, ast.UnaryOp) and isinstance(test.op, ast.Not):
-            return self._equalities(test.operand, not truth)
-        if isinstance(test, ast.BoolOp):
-            if isinstance(test.op, ast.And) == truth:       # (a and b) true / (a or b) false: every operand has that truth value
-                out = []
-                for v in test.values:
-                    out.extend(self._equalities(v, truth))
-                return out
-            return []
-        if isinstance(test, ast.Compare):
-            want = ast.Eq if truth else ast.NotEq
-            if all(isinstance(o, want) for o in test.ops) and (truth or len(test.ops) == 1):
-                vals = [self.ev(test.left)] + [self.ev(c) for c in test.comparators]
-                return [(a, b) for a, b in zip(vals, vals[1:]) if is_rat(a) and is_rat(b)]
-        return []
+    def _body(self, stmts, symbolic):
+        """one pass over a loop body; `continue` ends the pass, a return / raise on the definite path of a symbolic pass cannot be described"""
+        self.loop_depth += 1
+        try:
+            self.run(stmts)
+        finally:
+            self.loop_depth -= 1
+        if self.done and self.exit == "continue":
+            self.done, self.exit = False, None
+        if self.done and symbolic:
+            raise Unsupported("return / raise inside a loop with a symbolic trip count")
 
     def _for(self, st):
         if st.orelse:
@@ -1085,7 +1611,7 @@ class Interp(AutoEvaluator):
         if sp[0] == "unroll":
             for x in sp[1]:
                 self._assign(st.target, x, st)
-                self.run(st.body)
+                self._body(st.body, False)
                 if self.done:
                     break
             return
@@ -1093,47 +1619,65 @@ class Interp(AutoEvaluator):
         self.loop_stack.append(lp.id)
         try:
             self._assign(st.target, sp[2](lp.sym), st)
-            self.run(st.body)
-            if self.done:
-                raise Unsupported("return / raise inside a loop with a symbolic trip count")
+            self._body(st.body, True)
         finally:
             self.loop_stack.pop()
 
-    def _while(self, st):
+    def _counted(self, st):
+        """`i = 0; while i < n: ...; i += 1` in any of its spellings -> (counter name, trip count value, body without the increment) or None"""
         t = st.test
         if st.orelse or not (isinstance(t, ast.Compare) and len(t.ops) == 1):
-            raise Unsupported("while loop that is not a counted loop")
-        var, bound = None, None
-        if isinstance(t.left, ast.Name) and isinstance(t.ops[0], (ast.Lt, ast.NotEq)):
-            var, bound = t.left.id, t.comparators[0]
-        elif isinstance(t.comparators[0], ast.Name) and isinstance(t.ops[0], (ast.Gt, ast.NotEq)):
-            var, bound = t.comparators[0].id, t.left
-        last = st.body[-1] if st.body else None
-        ok = var is not None and const_int(self.env.get(var)) == 0 and isinstance(last, ast.AugAssign) and isinstance(last.op, ast.Add) \
-            and isinstance(last.target, ast.Name) and last.target.id == var and isinstance(last.value, ast.Constant) and last.value.value == 1
-        if ok:
-            for s in st.body[:-1]:
-                for n in ast.walk(s):
-                    if isinstance(n, ast.Name) and n.id == var and isinstance(n.ctx, ast.Store):
-                        ok = False
-                    if isinstance(n, (ast.Break, ast.Continue)):
-                        ok = False
-        if not ok:
-            raise Unsupported("while loop that is not `i = 0; while i < n: ...; i += 1`")
+            return None
+        l, r, op = t.left, t.comparators[0], type(t.ops[0]).__name__
+        is_counter = lambda x: isinstance(x, ast.Name) and const_int(self.env.get(x.id)) == 0       # noqa: E731
+        if not is_counter(l) and is_counter(r):
+            l, r, op = r, l, {"Lt": "Gt", "Gt": "Lt", "LtE": "GtE", "GtE": "LtE"}.get(op, op)
+        if not is_counter(l) or op not in ("Lt", "LtE", "NotEq") or not st.body:
+            return None
+        var, bound = l.id, r
+        last = st.body[-1]
+        inc = False
+        if isinstance(last, ast.AugAssign) and isinstance(last.op, ast.Add) and isinstance(last.target, ast.Name) and last.target.id == var:
+            inc = isinstance(last.value, ast.Constant) and last.value.value == 1
+        elif isinstance(last, ast.Assign) and len(last.targets) == 1 and isinstance(last.targets[0], ast.Name) and last.targets[0].id == var \
+                and isinstance(last.value, ast.BinOp) and isinstance(last.value.op, ast.Add):
+            a, b = last.value.left, last.value.right
+            inc = any(isinstance(x, ast.Name) and x.id == var and isinstance(y, ast.Constant) and y.value == 1 for x, y in ((a, b), (b, a)))
+        if not inc:
+            return None
+        bound_names = {b.id for b in ast.walk(bound) if isinstance(b, ast.Name)}
+        for s_ in st.body[:-1]:
+            for n in ast.walk(s_):
+                if isinstance(n, ast.Name) and isinstance(n.ctx, ast.Store) and (n.id == var or n.id in bound_names):
+                    return None
+                if isinstance(n, (ast.Break, ast.Continue)):
+                    return None             # `continue` would skip the increment
         dom = self.ev(bound)
         if not is_rat(dom):
-            raise Unsupported("while bound")
-        for s in st.body:
-            for n in ast.walk(s):
-                if isinstance(n, ast.Name) and isinstance(n.ctx, ast.Store) and any(isinstance(b, ast.Name) and b.id == n.id for b in ast.walk(bound)):
-                    raise Unsupported("while bound changed by the body")
+            return None
+        if op == "LtE":
+            dom = dom + F.const(1)
+        return var, dom, st.body[:-1]
+
+    def _while(self, st):
+        cl = self._counted(st)
+        if cl is None:
+            raise Unsupported("while loop that is not a counted loop `i = 0; while i < n: ...; i += 1`")
+        var, dom, body = cl
+        n = const_int(dom)
+        if n is not None and 0 <= n <= MAX_UNROLL:
+            for k in range(n):
+                self.env[var] = F.const(k)
+                self._body(body, False)
+                if self.done:
+                    return
+            self.env[var] = dom
+            return
         lp = self._new_loop(dom, st)
         self.loop_stack.append(lp.id)
         try:
             self.env[var] = lp.sym
-            self.run(st.body[:-1])
-            if self.done:
-                raise Unsupported("return / raise inside a loop with a symbolic trip count")
+            self._body(body, True)
         finally:
             self.loop_stack.pop()
         self.env[var] = dom
@@ -1170,6 +1714,15 @@ class Interp(AutoEvaluator):
         self.done = False
 
     def _try(self, st):
+        if not st.handlers:
+            # try / finally: nothing is caught - the body runs as written (an exception leaves the function)
+            self.run(st.body + st.orelse)
+            if st.finalbody:
+                done, exit_ = self.done, self.exit
+                self.done = False
+                self.run(st.finalbody)
+                self.done, self.exit = self.done or done, (self.exit if self.done and not done else exit_)
+            return
         self._partial([st.body + st.orelse] + [h.body for h in st.handlers])
         if st.finalbody:
             self.run(st.finalbody)
